@@ -37,6 +37,15 @@ Theorem C08_exclusive_in_memory :
 Proof. exact c08_in_memory. Qed.
 Print Assumptions C08_exclusive_in_memory.
 
+(* The operation bodies that both backend models execute — written with the
+   comparison expressions translated from the Rust sources on every run
+   (generated/Funs.v) — are the bodies `lease_body` that the clauses below
+   speak about. *)
+Theorem C08_code_comparisons_are_the_named_predicates :
+  forall b cfg now op t, lease_body_code b cfg now op t = lease_body b cfg now op t.
+Proof. exact body_code_eq. Qed.
+Print Assumptions C08_code_comparisons_are_the_named_predicates.
+
 (* Either backend: an acquire goes through (object store: reaches its
    conditional PUT) and yields a live lease with expires_at = now + TTL exactly
    when no lease that is live at `now` shares a chunk with the request. *)
